@@ -5,7 +5,7 @@ import os
 import re
 
 import vlib
-from vlib import Infra
+from vlib import Infra, DriverPanic
 
 PROPS = {}
 VIOLATED = re.compile(r"(Invariant \w+ is violated|Temporal propert\w+ .*violated|is violated)")
@@ -43,13 +43,30 @@ def prop(pid):
     return deco
 
 
+def panic_candidate(run, binary, driver, dp, env, tier, args):
+    """The library panicked while the driver ran scenario dp.key: confirmed by running that scenario alone."""
+    def recheck():
+        try:
+            run.drive(binary, driver, sub="recheck-panic", env=dict(env, VERIF_ONLY=dp.key), tier=tier, args=args)
+        except DriverPanic as again:
+            return True, dict(driver=driver, scenario=dp.key, panic=again.text, stack=again.stack)
+        return False, None
+    run.candidate(dp.key, "the library panicked: %s" % dp.text[:200], recheck)
+    run.cov["evaluations"] = max(run.cov["evaluations"], 1)
+    run.cov["distinct_nontrivial"] = max(run.cov["distinct_nontrivial"], 1)
+    return {}
+
+
 def records_check(run, binary, driver, module, env=None, tier=None, sub=None, args=(), post=None):
     """Drive, judge records with TLC, confirm each bad record in isolation.
     post(files): optional step between driver and TLC (e.g. an independent oracle filling a field)."""
     e = dict(env or {})
     if getattr(run, "only", None):
         e["VERIF_ONLY"] = run.only
-    d, meta = run.drive(binary, driver, env=e, tier=tier, sub=sub, args=args)
+    try:
+        d, meta = run.drive(binary, driver, env=e, tier=tier, sub=sub, args=args)
+    except DriverPanic as dp:
+        return panic_candidate(run, binary, driver, dp, e, tier, args)
     run.absorb(meta)
     files = meta["files"]["records"]
     if post:
@@ -96,7 +113,10 @@ def traces_check(run, binary, driver, module, env=None, tier=None, sub=None, arg
     e = dict(env or {})
     if getattr(run, "only", None):
         e["VERIF_ONLY"] = run.only
-    d, meta = run.drive(binary, driver, env=e, tier=tier, sub=sub, args=args, timeout=timeout)
+    try:
+        d, meta = run.drive(binary, driver, env=e, tier=tier, sub=sub, args=args, timeout=timeout)
+    except DriverPanic as dp:
+        return panic_candidate(run, binary, driver, dp, e, tier, args)
     run.absorb(meta)
     files = meta["files"][fileskey]
     validate = vlib.tlc_traces_nd if nd else vlib.tlc_traces
